@@ -5,6 +5,7 @@ ID = "C16"
 LEVEL = "proof"
 DRIVER = {"srcs": ["harness/c16_driver.cc"], "sdk": False}
 TRIVIAL_TAGS = {"b3_empty", "j_empty", "rt_b3_single_invalid", "rt_b3_multi_invalid", "rt_jaeger_invalid"}
+TRIVIAL_TAGS |= {"rtd_%s_invalid_%s" % (k, d) for k in ("b3_single", "b3_multi", "jaeger", "composite") for d in ("nospan", "dst_invalid", "dst_other", "dst_same_local", "dst_same_remote")}
 ASSUMPTIONS = [
     "SpanContext objects handed to Inject are built by the driver from (16-byte trace id, 8-byte span id, flags byte, remote bit, "
     "TraceState::FromHeader(h)); the carrier is a std::map whose Get returns \"\" for an absent key (absent and empty headers are "
@@ -308,10 +309,50 @@ def gen_overlong(rng, n):
     return cases
 
 
+def ctx5(tid, sid, f, remote, ts):
+    return "%s %s %d %d %s" % (hx(tid), hx(sid), f, remote, hx(ts))
+
+
+def rtd(kind, c, d, nkeys):
+    return "RTD %s %s %s %d" % (kind, ctx5(*c), "NOSPAN" if d is None else "SPAN " + ctx5(*d), nkeys)
+
+
+def flip(b, i, bit=1):
+    b = bytearray(b); b[i] ^= bit; return bytes(b)
+
+
+def gen_rtd(rng, n):
+    """inject, then extract into a destination Context that is not empty: a span equal to the injected one (local / remote),
+    differing in exactly one field, invalid, absent; unrelated values that must survive"""
+    cases = []
+    flagset = [0, 1, 2, 3, 0x80, 0x81, 0xfe, 0xff]
+    for kind in "SMJC":
+        for f in flagset + [rng.below(256) for _ in range(2 * n)]:
+            tid, sid = rng.bytes(15) + b"\x01", rng.bytes(7) + b"\x01"
+            ts = rng.choice([b"", b"a=1"])
+            for remote in (0, 1):
+                c = (tid, sid, f, remote, ts)
+                dests = [None,
+                         (tid, sid, f, 0, ts), (tid, sid, f, 1, ts),                                   # the very same identity, local / remote
+                         (tid, sid, f, 0, b"k=v"), (tid, sid, f, 0, b""),                              # other trace state
+                         (flip(tid, rng.below(16), 1 << rng.below(8)), sid, f, 0, ts),                 # one field differs
+                         (tid, flip(sid, rng.below(8), 1 << rng.below(8)), f, 0, ts),
+                         (tid, sid, f ^ 1, 0, ts), (tid, sid, f ^ (2 << rng.below(7)), 0, ts),
+                         (bytes(16), bytes(8), 0, 0, b""), (tid, bytes(8), f, 0, b""), (bytes(16), sid, f, 0, b""),   # invalid span
+                         (rng.bytes(16), rng.bytes(8), rng.below(256), rng.below(2), b"")]
+                for d in dests:
+                    cases.append(rtd(kind, c, d, rng.choice([0, 1, 2, 3, 9])))
+        # nothing injected (invalid context): the destination comes back as it is
+        for c in ((bytes(16), rng.bytes(8), 1, 0, b""), (rng.bytes(16), bytes(8), 1, 0, b""), (bytes(16), bytes(8), 0, 0, b"")):
+            for d in (None, (rng.bytes(16), rng.bytes(8), 1, 0, b""), (bytes(16), bytes(8), 0, 0, b""), (c[0], c[1], c[2], 0, b"")):
+                cases.append(rtd(kind, c, d, rng.choice([0, 2])))
+    return cases
+
+
 def gen(rng, tier):
     thorough = tier != "quick"
     n = 12 if thorough else 1
-    return gen_rt(rng, n) + gen_overlong(rng, n) + gen_b3(rng, n, thorough) + gen_jaeger(rng, n, thorough)
+    return gen_rt(rng, n) + gen_rtd(rng, n) + gen_overlong(rng, n) + gen_b3(rng, n, thorough) + gen_jaeger(rng, n, thorough)
 
 
 def _unx(t):
@@ -334,6 +375,10 @@ def neighbours(rng, cases):
                 nb = b[:pos] + rng.choice(MUT) + b[pos + 1:] if k == 0 else (b[:pos] + b[pos + 1:] if k == 1 else b[:pos] + rng.choice(MUT) + b[pos:])
                 hs2 = list(hs); hs2[i] = nb
                 out.append("EXT %s %s" % (t[1], " ".join(o(x) for x in hs2)))
+        elif t[0] == "RTD":
+            for kind in "SMJC":
+                for f in (0, 1, 2, 255):
+                    out.append(" ".join([t[0], kind, t[2], t[3], str(f)] + t[5:]))
         elif t[0] == "RT":
             for f in range(256):
                 out.append(" ".join([t[0], t[1], t[2], t[3], str(f)] + t[5:]))
@@ -352,6 +397,13 @@ def shrink(case):
             for cand in [None, b""] + [b[:pos] + b[pos + 1:] for pos in range(len(b))][:60]:
                 hs2 = list(hs); hs2[i] = cand
                 yield "EXT %s %s" % (t[1], " ".join(o(x) for x in hs2))
+    elif t[0] == "RTD":
+        if t[-1] != "0":
+            yield " ".join(t[:-1] + ["0"])
+        if t[6] != "x":
+            yield " ".join(t[:6] + ["x"] + t[7:])
+        if t[7] == "SPAN" and t[12] != "x":
+            yield " ".join(t[:12] + ["x"] + t[13:])
     elif t[0] == "RT":
         f = int(t[4])
         for bit in range(8):
